@@ -70,8 +70,24 @@ def routing_tables(seeds):
     return keys, tables
 
 
+def design_level(out, tier):
+    """FanoutSeq.tla: N shards + every routing function in lock step with one reference cache; an aggregate that
+    skips a shard must break it."""
+    for name in (['two'] if tier == 'quick' else ['two', 'three', 'keys3']):
+        res = run_tlc('MCFanout.tla', 'MCFanout_%s.cfg' % name, workers=16, timeout=1500)
+        if res.error or res.violation:
+            raise MachineryError('MCFanout_%s: %s %s\n%s' % (name, res.error, res.violation, res.out[-1500:]))
+        first = open(os.path.join(VERIF, 'spec', 'MCFanout_%s.cfg' % name)).readline().strip()
+        out.add_tlc('MCFanout_%s.cfg' % name, res, first)
+    res = run_tlc('MCFanout.tla', 'MCFanout_dev_skip.cfg', workers=4, timeout=300)
+    if res.violation not in ('SameResults', 'UnionIsReference'):
+        raise MachineryError('MCFanout_dev_skip was expected to violate SameResults or UnionIsReference, got %s %s' % (res.violation, res.error))
+    out.notes['design_deviations_rejected'] = ['dev_skip (aggregates skip the last shard) violates %s' % res.violation]
+
+
 def run(prop, tier, seed):
     out = Outcome('C13', tier, seed)
+    design_level(out, tier)
     rng = random.Random(seed * 141650939 + 13)
     jobs = []
     tid = 0
@@ -142,7 +158,7 @@ def run(prop, tier, seed):
                 pass        # equal keys in one shard overwrite each other: one value survives
     out.samples.append({'cfg': traces[0]['cfg'], 'ops': [[e['op'], e['a'], e['ret']] for e in traces[0]['ev'][:10]]})
     out.notes.update({'routing_keys': len(keys), 'interpreters_compared': len(seeds), 'shard_counts': [1, 2, 3, 8, 13]})
-    out.level = 'exploration'
+    out.level = 'model_checking'
     return out.finish({'evaluations': len(traces) + len(seeds) * 5, 'distinct_nontrivial': len({json.dumps(t['cfg'], sort_keys=True) for t in traces}),
                        'rule': 'seeded random histories (as C03) on FanoutCache with 1/2/3/8/13 shards, full projection of every shard after every call, validated by TLC against '
                                'FanoutTrace.tla (per-shard CacheOps steps, aggregate folds, divided size limit); routing tables of %d keys computed in fresh interpreters with '
